@@ -155,6 +155,10 @@ def generate_pdf(document, target, zoom, **options):
 
     # Links and anchors
     page_links_and_anchors = list(resolve_links(document.pages))
+    for page in document.pages:
+        # Forget the annotations of a previous PDF generation
+        for *_, box in page.links:
+            box.link_annotation = None
 
     annot_files = {}
     pdf_pages, page_streams = [], []
